@@ -343,6 +343,16 @@ func runLifecycleBehaviour(lg *lcLog, b lcBehaviour, scratch string) {
 		}
 		server = smtp.NewServer(root.SMTP, mgr, ap, host)
 	} else {
+		if b.TLS {
+			crt, key, err := lcSelfSigned(scratch, b.ID)
+			if err != nil {
+				fail(err)
+				return
+			}
+			defer os.Remove(crt)
+			defer os.Remove(key)
+			root.POP3.TLSEnabled, root.POP3.ForceTLS, root.POP3.TLSCert, root.POP3.TLSPrivKey = true, true, crt, key
+		}
 		ps, err := pop3.NewServer(root.POP3, store)
 		if err != nil {
 			fail(err)
@@ -440,7 +450,7 @@ func runLifecycleBehaviour(lg *lcLog, b lcBehaviour, scratch string) {
 				ev["conn"], ev["banner"], ev["entered"] = "error: "+err.Error(), "", false
 				break
 			}
-			if b.TLS && b.Proto == "smtp" {
+			if b.TLS {
 				if tc, ok := conn.(*net.TCPConn); ok {
 					tcpOf[st.S] = tc
 				}
@@ -543,6 +553,17 @@ func runLifecycleBehaviour(lg *lcLog, b lcBehaviour, scratch string) {
 			}()
 			// give a return that is going to happen at once the time to be recorded before the next step begins
 			waitClosed(drainRet, 15*time.Millisecond)
+		case "plainconn":
+			// a client that does not speak TLS to the TLS listener (a scanner, a health probe): its handshake fails
+			conn, err := net.DialTimeout("tcp4", addr, time.Second)
+			if err == nil {
+				_ = conn.SetDeadline(time.Now().Add(500 * time.Millisecond))
+				_, _ = conn.Write([]byte("QUIT\r\n\r\n\r\n"))
+				buf := make([]byte, 256)
+				_, _ = conn.Read(buf)
+				conn.Close()
+			}
+			ev["r"] = "done"
 		case "newconn":
 			conn, err := net.DialTimeout("tcp4", addr, time.Second)
 			ev["ours"] = false
